@@ -75,6 +75,32 @@ def motif_uncastle(rng):
     return chessgen.board_to_fen(board, not white, cs, "-", rng.randrange(0, 30), rng.randrange(1, 60))
 
 
+# positions with an e.p. square whose double-push origin square is occupied: accepted by the FEN reader, unreachable;
+# before `fix: RevMoveGen::genMoves must not un-move the double push …` the double push was listed for them
+EP_ORIGIN_PROBES = ["4k3/8/8/8/3pP3/8/4N3/4K3 b - e3 0 1", "rnbqkbnr/ppp1pppp/8/8/3pP3/8/PPPPNPPP/RNBQKB1R b KQkq e3 0 3",
+                    "rnbqkb1r/ppppnppp/8/3Pp3/8/8/PPP1PPPP/RNBQKBNR w KQkq e6 0 3"]
+
+
+def motif_ep_origin(rng):
+    """e.p. square present and capturable, origin square of the double push occupied (70 %) or empty"""
+    board = chessgen.random_placement(rng, dense=rng.random() < 0.5)
+    wtm = rng.random() < 0.5                     # side to move in Q; the other side has just double-pushed
+    x = rng.randrange(8)
+    y_p, y_e, y_o = (4, 5, 6) if wtm else (3, 2, 1)
+    for yy in (y_p, y_e, y_o):
+        if board[yy * 8 + x] in ("K", "k"): return chessgen.START
+    board[y_p * 8 + x] = "p" if wtm else "P"
+    board[y_e * 8 + x] = None
+    board[y_o * 8 + x] = rng.choice("nbrqNBRQpP" if not wtm else "nbrqNBRQpp") if rng.random() < 0.7 else None
+    ax = x + rng.choice([-1, 1])
+    if 0 <= ax < 8 and board[y_p * 8 + ax] not in ("K", "k"):
+        board[y_p * 8 + ax] = "P" if wtm else "p"
+    for xx in range(8):
+        for yy in (0, 7):
+            if board[yy * 8 + xx] in ("P", "p"): board[yy * 8 + xx] = None
+    return chessgen.board_to_fen(board, wtm, "-", "abcdefgh"[x] + str(y_e + 1), 0, 20)
+
+
 def par_lines(binary, lines, nproc=None, chunk=400):
     """run `lines` through `binary`, split over processes; returns (ok, outputs, stderr)"""
     n = max(1, min(nproc or min(vlib.NCPU, 12), len(lines) // chunk + 1))
@@ -164,6 +190,29 @@ def check_positions(ctx, vh, fens, modes, name):
                     else:
                         ctx.violation(f"model and implementation disagree on `{l}`: impl `{a[:80]}` model `{b[:80]}`",
                                       {"kind": "correspondence", "tie": name, "input": [l], "impl": a[:500], "model": b[:500]}, no_input=True)
+        if mode == 1:
+            # tie of the model's `unmake` to Position::unMakeMove: predecessor FEN of sampled un-moves
+            pl = []
+            for f, a in zip(fens, o1):
+                toks = a.split()[1:]
+                special = [t for t in toks if not t.endswith(":-") or len(t.split(":")[0]) == 5 or t[:4] in ("e1g1", "e1c1", "e8g8", "e8c8")]
+                pick = (ctx.rng.sample(toks, 2) if len(toks) > 2 else toks) + (ctx.rng.sample(special, 3) if len(special) > 3 else special)
+                for t in dict.fromkeys(pick):
+                    pl.append(f"rev pre {t} {f}")
+            ok1, p1, err = par_lines(vh, pl)
+            ok2, p2, err2 = par_lines(vlib.driver_bin(), pl)
+            if not (ok1 and ok2):
+                ctx.violation("`rev pre` died", {"kind": "impl-crash" if not ok1 else "model-crash", "stderr": (err + err2)[-500:]}, no_input=True)
+            else:
+                ctx.count(len(pl))
+                ctx.tie(f"{name}-unmake", kind="differential: Position::unMakeMove vs Chess.unmake (predecessor FEN of sampled un-moves)", lines=len(pl))
+                stats["unmake_compared"] += len(pl)
+                for l, a, b in zip(pl, p1, p2):
+                    if a != b:
+                        ctx.violation(f"unMakeMove and its model disagree on `{l}`: impl `{a}` model `{b}`",
+                                      {"kind": "correspondence", "tie": name + "-unmake", "theorem_scope": "Chess.unmake (unmake_restores) no longer models Position::unMakeMove",
+                                       "input": [l], "impl": a, "model": b}, no_input=True)
+                        break
     return stats
 
 
@@ -190,7 +239,7 @@ def run(ctx):
     vlib.lean_obligations(ctx)
     ctx.assumptions += ["the rules of chess are those of lean/TexelVerif/Chess/Spec.lean (trusted text; tied to the real generator by C01)",
                         "predecessors that count = Chess.wfB: accepted unchanged by the FEN reader, origin of a double push empty, piece counts reachable by promotions (the positions knownInvalid does not reject)",
-                        "Q itself is a position reached in a legal game or accepted by the FEN reader with a well-shaped e.p. square"]
+                        "Q itself is a position reached in a legal game or accepted by the FEN reader"]
     # 1. triples from random games: completeness predicate on the implementation
     n_games, plies = (420, 60) if quick else (36000, 70)
     tri = gen_triples(ctx, vh, n_games, plies)
@@ -220,20 +269,9 @@ def run(ctx):
     # 3. synthetic positions (not necessarily reachable): promoted pieces, e.p. shapes, castling flags
     syn = [f for f in chessgen.synthetic(ctx.rng, 1500 if quick else 60000)]
     syn += [f for f in (motif_uncastle(ctx.rng) for _ in range(1200 if quick else 40000)) if f]
+    syn += [motif_ep_origin(ctx.rng) for _ in range(300 if quick else 6000)] + EP_ORIGIN_PROBES
     ok, o, err = par_lines(vh, [f"chess fen {f}" for f in syn])
-    acc = []
-    if ok:
-        for x in o:
-            if x.startswith("ok "):
-                f = x[3:]; fs = f.split()
-                if fs[3] != "-":     # the reader does not require the origin square of the double push to be empty; un-moves do
-                    ex, ey = "abcdefgh".index(fs[3][0]), int(fs[3][1]) - 1
-                    rows = fs[0].split("/")
-                    row = rows[7 - (ey - 1 if fs[1] == "b" else ey + 1)]
-                    cells = []
-                    for ch in row: cells += [None] * int(ch) if ch.isdigit() else [ch]
-                    if cells[ex] is not None: continue
-                acc.append(f)
+    acc = [x[3:] for x in o if x.startswith("ok ")] if ok else []
     acc = list(dict.fromkeys(acc))
     st2 = check_positions(ctx, vh, acc, (1, 0), "synthetic-positions")
     ctx.cov["position_stats"] = {"game_positions": len(qs), "synthetic_positions": len(acc),
